@@ -170,14 +170,20 @@ func TestVerifC24(t *testing.T) {
 			default:
 				f := secs[rnd.Intn(len(secs))] - int64(rnd.Intn(2))*3600
 				t2 := f + []int64{1, 2, 60, 61, 3600, 3601, 7200}[rnd.Intn(7)]
-				ops = append(ops, verifC24Op{a: "Get", k: []string{"a", "b", "c"}[rnd.Intn(3)], f: f, t: t2})
-				if rnd.Intn(2) == 0 { // something happens during the load
-					if rnd.Intn(2) == 0 {
-						ops = append(ops, verifC24Op{a: "Inval", secs: []int64{f + int64(rnd.Intn(int(t2-f)))}})
-					} else {
-						ops = append(ops, verifC24Op{a: "Tick", d: 1})
+				key := []string{"a", "b", "c"}[rnd.Intn(3)]
+				ops = append(ops, verifC24Op{a: "Get", k: key, f: f, t: t2})
+				if rnd.Intn(2) == 0 { // things happen during the load: invalidations, clock steps around the linger
+					for n := rnd.Intn(3) + 1; n > 0; n-- {
+						if rnd.Intn(2) == 0 {
+							ops = append(ops, verifC24Op{a: "Inval", secs: []int64{f + int64(rnd.Intn(int(t2-f)))}})
+						} else {
+							ops = append(ops, verifC24Op{a: "Tick", d: []int64{1, 14, 15, 16, 60}[rnd.Intn(5)]})
+						}
 					}
 					ops = append(ops, verifC24Op{a: "Store"})
+					if rnd.Intn(2) == 0 { // and the same range is asked again
+						ops = append(ops, verifC24Op{a: "Get", k: key, f: f, t: t2})
+					}
 				}
 			}
 		}
